@@ -102,6 +102,8 @@ def explore(ctx):
                 res.failures.append({"what": "unmarshal(T, unmarshal(T, x)) != unmarshal(T, x)", "input": inp,
                                      "real": {"first": r_["ok"], "second": a}})
     flagged_patterns(res)
+    from .c01 import inheritance_probe
+    inheritance_probe(res, "pass")
     return res
 
 
@@ -220,6 +222,12 @@ def witness(fid):
 
 def replay(failure):
     inp = failure["input"]
+    if "inherit_case" in inp:
+        from .. import iso
+        from .c01 import _inherit_child
+        o = iso.map_isolated(_inherit_child, [tuple(inp["inherit_case"])], timeout=60.0)[0]
+        print(json.dumps({"case": inp["inherit_case"], "real": o}, indent=1))
+        return not (isinstance(o, dict) and o.get("pass"))
     if "flag_case" in inp:
         o = _flag_child(inp["flag_case"])
         print(json.dumps({"case": inp["flag_case"], "real": o}, indent=1))
